@@ -715,6 +715,11 @@ func TestC04(t *testing.T) {
 	}
 	// Part (b): elision-heavy mined patterns.
 	c04b.run(t)
+	if t.Failed() {
+		return
+	}
+	// Parts (c) and (d): elisions on mixed lines; long lists.
+	c04xRun(t)
 }
 
 // softFataler records the failure without stopping the goroutine abruptly.
@@ -745,10 +750,19 @@ func TestReplayC04(t *testing.T) {
 	// Two case shapes: the enumeration's (kind, pattern) and the model case.
 	var probe struct {
 		Kind    string `json:"kind"`
-		Pattern string `json:"pattern"`
+		Pattern any    `json:"pattern"`
 		Patch   string `json:"patch"`
+		Mode    string `json:"mode"`
 	}
 	if !loadReplay(t, "C04", &probe) {
+		return
+	}
+	if probe.Mode != "" {
+		var xc c04xCase
+		loadReplay(t, "C04", &xc)
+		if sig, msg, _, _ := evalC04x(&xc); sig != "" {
+			violate(t, "C04", sig, msg, &xc)
+		}
 		return
 	}
 	if probe.Patch != "" {
